@@ -64,6 +64,16 @@ def check(ctx, rep):
     for s, n in saves:
         rep.ob('save.copies-value', 'saved value is a copy of the variable: %s' % short(n),
                norm(n.value) == 'self._memory.scalars.view(%s).clone()' % norm(n.targets[0].slice), '', ctx.where(n))
+    # inside the loop the save is unconditional: no `continue`, `break` or branch can skip a parameter (a parameter
+    # that does not exist yet is created first, so that its later removal / restoration to 0 is possible)
+    for s_, n_ in saves:
+        if isinstance(s_, ast.For):
+            skips = [x for x in own_nodes(s_) if isinstance(x, (ast.Continue, ast.Break))]
+            direct = n_ in s_.body
+            creates = [c for c in own_nodes(s_) if isinstance(c, ast.Call) and norm(c.func) == 'self._memory.scalars.set' and len(c.args) == 1]
+            rep.ob('save.every-parameter', 'every parameter is saved, also one that did not exist before the call', direct and not skips and len(creates) == 1,
+                   'a parameter can be skipped by the save loop (%s): after the call it keeps the argument value' % ([type(x).__name__ for x in skips] or 'save is conditional'),
+                   ctx.where(s_))
     # the save loop iterates over all completed parameter names
     save_loops = [s for s, n in saves if isinstance(s, ast.For)]
     if save_loops:
@@ -193,6 +203,8 @@ def variants(ctx):
            expect='save.copies-value'),
         Va('flag-not-cleared', 'break', UF, in_ev(lambda fn: mu.remove_stmt(fn, mu.text_is('self._is_parsing = False'))), expect='recursion.flag'),
         Va('recursion-check-after-binding', 'break', UF, in_ev(lambda fn: _move_rec_check(fn)), expect='recursion.before'),
+        Va('new-parameters-not-saved', 'break', UF,
+           in_ev(lambda fn: mu.replace_stmt(fn, mu.text_is('self._memory.scalars.set(name)'), 'continue')), expect='save.every-parameter'),
         Va('saved-not-a-gc-root', 'break', UF,
            in_ev(lambda fn: mu.remove_stmt(fn, mu.text_is('self._memory.temp_values.add(varsave[name])'))), expect='gc-roots'),
         Va('args-not-released', 'break', UF,
